@@ -322,8 +322,8 @@ fn parse_sequence_header(obu_data: &[u8], header_size: usize) -> Option<Av1Confi
             }
         }
 
-        // decoder_model_info_present_flag: 1 bit
-        let decoder_model_info_present = reader.read_bit()?;
+        // decoder_model_info_present_flag: 1 bit, only coded when timing info is present
+        let decoder_model_info_present = timing_info_present && reader.read_bit()?;
         let mut buffer_delay_length = 0;
         if decoder_model_info_present {
             buffer_delay_length = reader.read_bits(5)? as u8 + 1;
